@@ -13,6 +13,7 @@ Not decided: global optimality, bounds respected to tolerance, solver accuracy."
 from __future__ import annotations
 from ..spec import rel_axis, lsq_inputs, const, none, opaque, arr, estimator_fields, S, U_REL, U_INT, U_CAPTURE
 from .. import rules as R
+from ..model import norm_text
 from ..values import Shape
 from .common import LSQ, opts, base_kws, cfgname, lsq_configs
 from . import formulation as F
@@ -24,7 +25,7 @@ RULE_TEXT = ("must-influence by over-approximated dependence (p ∉ closure ⇒ 
 EST = "dreye.api.estimator:ReceptorEstimator"
 
 AXES = {
-    "K": (["vec", "mat", None], ["vec", "mat", None]),
+    "K": (["vec", "mat", None, "scalar"], ["vec", "mat", None, "scalar"]),
     "baseline": (["vec", None, "scalar"], ["vec", None, "scalar"]),
     "W": (["mat", "vec", None], ["mat", "vec", None]),
     "lb": (["nonneg", "any"], ["nonneg", "any"]),
@@ -47,6 +48,19 @@ def check(rep, an, tier):
         need = {"A", "B"} | ({"W"} if cfg["W"] else set()) | ({"K"} if cfg["K"] else set()) \
             | ({"baseline"} if cfg["baseline"] else set())
         F.flow_objective(rep, res, entry, need)
+        # the default fit is LEAST SQUARES: Minimize Σ (residual)² in normal form (positive scalings / −Maximize folded)
+        for po, obj, cons in F.final_problems(res):
+            sense, expr = R.objective_nf(obj)
+            a_ = expr.tag("atom") if expr is not None else None
+            top = a_[0] if a_ else None
+            sq_of_sum = top == "sum" and a_[1] and (a_[1][0].tag("atom") or (None,))[0] in ("square",)
+            pw = top == "power" or top == "quad_over_lin"
+            st = None if (top is None or pw) else (sense == "Minimize" and (top in ("sum_squares", "norm2", "norm_fro") or sq_of_sum))
+            node = obj.tag("node")
+            rep.check("R-DISPATCH", "gaussian model: Minimize the sum of squared weighted residuals", st, where=F.where_po(po),
+                      construct=norm_text(node)[:90] if node is not None else "objective", entry=entry, config=res.config,
+                      msg=f"normal form {sense}({top}(…)): not a least-squares objective — the returned intensities do not minimise "
+                          f"Σ w²(K(Ax + baseline) − b)²")
         F.flow_constraints(rep, res, entry, {"lb"} | ({"ub"} if cfg["ub"] == "finite" else set()))
         F.must_constraint(rep, res, entry, "lb", "lower bound")
         if cfg["ub"] == "finite":
